@@ -159,6 +159,11 @@ func (s singleSymmetricKeySealer) Unseal(u *url.URL) (*url.URL, error) {
 		return nil, fmt.Errorf("bad request: error parsing req as base64 URL encoded: %w", err)
 	}
 
+	if len(nonce) != aesgcm.NonceSize() {
+		// Open panics on a nonce of the wrong length.
+		return nil, errors.New("bad request: nonce has invalid length")
+	}
+
 	requestURI, err := aesgcm.Open(nil, nonce, reqBytes, []byte(nbfStr+":"+expStr))
 	if err != nil {
 		return nil, fmt.Errorf("bad request: error opening sealed url: %w", err)
